@@ -25,6 +25,9 @@ pub struct BInfo {
 }
 
 pub struct World {
+    /// configuration of builder nodes (defaults to `cfg`; C05 lets builders bypass the
+    /// golden-ticket density rule so that children of density-violating blocks can be produced)
+    pub builder_cfg: Option<Cfg>,
     pub cfg: Cfg,
     pub creator: Key,
     pub blocks: Vec<BInfo>,
@@ -39,6 +42,7 @@ pub const HEARTBEAT: u64 = 5_000;
 impl World {
     pub fn new(cfg: Cfg) -> World {
         World {
+            builder_cfg: None,
             cfg,
             creator: key(0),
             blocks: vec![],
@@ -155,8 +159,19 @@ impl World {
     }
 
     /// a fresh node that has received genesis..=tip in order through add_block
+    pub fn builder_at(&self, tip: usize) -> Result<LedgerNode, String> {
+        match &self.builder_cfg {
+            Some(c) => self.node_at_cfg(tip, self.creator, c.clone()),
+            None => self.node_at(tip, self.creator),
+        }
+    }
+
     pub fn node_at(&self, tip: usize, who: Key) -> Result<LedgerNode, String> {
-        let mut n = LedgerNode::new(who, self.cfg.clone());
+        self.node_at_cfg(tip, who, self.cfg.clone())
+    }
+
+    pub fn node_at_cfg(&self, tip: usize, who: Key, cfg: Cfg) -> Result<LedgerNode, String> {
+        let mut n = LedgerNode::new(who, cfg);
         for i in self.path(tip) {
             match n.add_block_bytes(&self.blocks[i].bytes) {
                 Outcome::Done(AddRes::AddedLongest) => {}
@@ -191,7 +206,7 @@ impl World {
         gt_miner: Option<Key>,
         txs: Vec<Transaction>,
     ) -> Result<Block, String> {
-        let node = self.node_at(parent, self.creator)?;
+        let node = self.builder_at(parent)?;
         self.produce_on(&node, parent, ts, gt_miner, txs)
     }
 
@@ -204,7 +219,7 @@ impl World {
         txs: Vec<Transaction>,
     ) -> Result<Block, String> {
         let creator = node.key;
-        let cfg = self.cfg.clone();
+        let cfg = node.cfg.clone();
         let phash = self.blocks[parent].hash;
         let bc = node.blockchain.clone();
         let storage = &node.storage;
@@ -263,6 +278,25 @@ impl World {
             .unspent_of(&from.public)
             .into_iter()
             .find(|s| s.amount >= amount + fee && s.block_id + g > h)?;
+        Some(self.spend(&slip, from, to, amount, fee, ts))
+    }
+
+    /// like `payment` but spends the most recently created output of `from` (creates
+    /// block-to-block dependency chains inside a fork)
+    pub fn payment_newest(
+        &self,
+        at: usize,
+        from: &Key,
+        to: &SaitoPublicKey,
+        amount: Currency,
+        fee: Currency,
+        ts: Timestamp,
+    ) -> Option<Transaction> {
+        let slip = self.ledgers[at]
+            .unspent_of(&from.public)
+            .into_iter()
+            .rev()
+            .find(|s| s.amount >= amount + fee)?;
         Some(self.spend(&slip, from, to, amount, fee, ts))
     }
 
